@@ -156,6 +156,20 @@ def make_driver(sc):
     raise ValueError(kind)
 
 
+def decode_arg(v):
+    """JSON-able argument encodings: {"__b": [...]} bytes, {"__segs": [[port, link]...]} PortSegment list,
+    {"__dtype": descriptor} a type class built from the descriptor."""
+    if isinstance(v, dict) and "__b" in v:
+        return bytes(v["__b"])
+    if isinstance(v, dict) and "__segs" in v:
+        from pycomm3.cip import PortSegment
+        return [PortSegment(p, l) for p, l in v["__segs"]]
+    if isinstance(v, dict) and "__dtype" in v:
+        from .codecgen import build
+        return build(v["__dtype"])
+    return v
+
+
 def do_call(drv, c):
     from .values import from_term
     api = c["api"]
@@ -181,7 +195,7 @@ def do_call(drv, c):
             return drv.write(items[0][0], items[0][1])
         return drv.write(*items)
     if api == "generic":
-        return drv.generic_message(**c["kwargs"])
+        return drv.generic_message(**{k: decode_arg(v) for k, v in c["kwargs"].items()})
     if api in ("get_plc_name", "get_plc_info", "get_plc_time"):
         return getattr(drv, api)()
     if api == "set_plc_time":
